@@ -166,6 +166,13 @@ impl SecondaryTransaction {
                     guard.insert(path, Bytes::from(buf));
                 }
                 _ => {
+                    #[cfg(risinglight_verif)]
+                    let verif_path = path.to_string_lossy().to_string();
+                    #[cfg(risinglight_verif)]
+                    crate::verif::point_sync(
+                        "persist.dv.create",
+                        &format!("{}|{}", verif_path, deletes.len()),
+                    );
                     let mut file = tokio::fs::OpenOptions::default()
                         .write(true)
                         .create_new(true)
@@ -173,6 +180,8 @@ impl SecondaryTransaction {
                         .await?;
                     DeleteVector::write_all(&mut file, &deletes).await?;
                     file.sync_data().await?;
+                    #[cfg(risinglight_verif)]
+                    crate::verif::point_sync("persist.dv.synced", &verif_path);
                 }
             }
             dvs.push(DeleteVector::new(dv_id, rowset_id, deletes));
@@ -227,6 +236,8 @@ impl SecondaryTransaction {
         }));
 
         // Commit changeset
+        #[cfg(risinglight_verif)]
+        crate::verif::point_sync("persist.txn.precommit", &changeset.len().to_string());
         self.version.commit_changes(changeset).await?;
 
         // phase B done and the manifest lock released; table lock and pin still held
@@ -349,7 +360,11 @@ impl SecondaryTransaction {
             let directory = self.table.get_rowset_path(rowset_id);
 
             if !self.table.storage_options.disable_all_disk_operation {
+                #[cfg(risinglight_verif)]
+                crate::verif::point_sync("persist.rowset.mkdir", &directory.to_string_lossy());
                 tokio::fs::create_dir(&directory).await?;
+                #[cfg(risinglight_verif)]
+                crate::verif::point_sync("persist.rowset.mkdir.done", &directory.to_string_lossy());
             }
 
             self.mem = Some(SecondaryMemRowsetImpl::new(
